@@ -435,6 +435,7 @@ class CallMixin(ExprMixin):
     def havoc_field(self, field: str, target=None):
         ty = self.field_ty(field)
         arr = self.heap_arr(field)
+        self.st.flags['heap_version'] = self.st.flags.get('heap_version', 0) + 1
         if target is None:
             self.st.heap[field] = z3.Const(fresh_name('H.' + field), arr.sort())
         else:
@@ -521,8 +522,28 @@ class CallMixin(ExprMixin):
                 self.havoc_field(f, self.spec_eval(tgt, env, entry=pre).term)
         for g in C.ghost_modifies:
             self.havoc_ghost(g)
+        for key in C.ctx_modifies:
+            ty = [t for (k, t, _) in self.spec.ctxvars.values() if k == key][0]
+            if key not in self.st.ctx:
+                models_ctx = fresh(ty, 'ctx_' + key)
+                self.assume_type(models_ctx)
+                self.st.ctx[key] = models_ctx
+                pre['ctx'].setdefault(key, models_ctx)
+                if self.entry is not None:
+                    self.entry['ctx'].setdefault(key, models_ctx)
+            nv = fresh(ty, 'ctx_' + key)
+            self.assume_type(nv)
+            self.st.ctx[key] = nv
         if getattr(C, 'allocates', True):
             self.grow_alloc()
+        # a suspending callee verified under the same interference has re-established its invariant at its exit
+        callee_inv = []
+        if C.suspends and self.C is not None and (C.interference or 'default') == (self.C.interference or 'default'):
+            I2 = self.spec.interference.get(C.interference or 'default')
+            if I2 is not None:
+                callee_inv = [self.spec_bool(cl.expr, env) for cl in I2.inv]
+        for f in callee_inv:
+            self.assume(f)
         opts = [None] + [None] * len(C.raises)
         which = self.choice(opts, 'call:' + C.key) if C.raises else 0
         if which == 0:
@@ -542,6 +563,7 @@ class CallMixin(ExprMixin):
         if 'CancelledError' in ((rc.cls,) if isinstance(rc.cls, str) else rc.cls) and getattr(rc, 'delivered', True):
             self.st.flags['cancelled'] = True
             self.st.trace.append('cancelled-in:' + C.key)
+        self.st.flags['last_callee_exc'] = (C.key, rc.label)
         env2 = dict(env)
         env2['raised'] = exc
         for cl in list(rc.ensures) + list(C.exits_ensure):
@@ -566,14 +588,23 @@ class CallMixin(ExprMixin):
         body = [s for s in node.body if not (isinstance(s, ast.Expr) and isinstance(s.value, ast.Constant))]
         if len(body) != 1 or not isinstance(body[0], ast.Return):
             raise Unsupported('%s is no longer a single return expression' % C.key)
+        # the same view of the same object in the same heap state is the same value (memoised per path)
+        heap = self.cur_heap()
+        memo_key = (C.key, base.term.get_id(), self.st.flags.get('heap_version', 0) if heap is self.st.heap else id(heap))
+        memo = self.st.flags.setdefault('view_memo', {})
+        if memo_key in memo and not getattr(self, 'spec_locals', None):
+            return memo[memo_key]
         saved = self.st.env
         self.st.env = {pname: base}
         self.spec_mode += 1
         try:
-            return self.eval(body[0].value)
+            r = self.eval(body[0].value)
         finally:
             self.spec_mode -= 1
             self.st.env = saved
+        if not getattr(self, 'spec_locals', None):
+            memo[memo_key] = r
+        return r
 
     def await_value(self, v: V) -> V:
         if v.ty.kind == 'py':
